@@ -314,8 +314,18 @@ class Interp:
         b = self.eval(node.right, env)
         return self.binary(BINOPS[type(node.op)], a, b)
 
+    DUNDER = {'add': '__add__', 'sub': '__sub__', 'mul': '__mul__', 'truediv': '__truediv__', 'floordiv': '__floordiv__',
+              'mod': '__mod__', 'pow': '__pow__', 'lshift': '__lshift__', 'rshift': '__rshift__', 'and_': '__and__',
+              'or_': '__or__', 'xor': '__xor__', 'matmul': '__matmul__'}
+
     def binary(self, name, a, b):
         a, b = self.resolve(a), self.resolve(b)
+        if isinstance(a, VObj) and a.tag in ('vector', 'table') and name in self.DUNDER:
+            meth = self.class_attr(a, a.pycls, self.DUNDER[name])
+            return self.call(meth, [b], {})
+        if isinstance(b, VObj) and b.tag in ('vector', 'table') and name in self.DUNDER:
+            meth = self.class_attr(b, b.pycls, '__r' + self.DUNDER[name][2:])
+            return self.call(meth, [a], {})
         if isinstance(a, VBool) and isinstance(b, (VInt, VBool)):
             a = VInt(z3.If(a.t, 1, 0))
         if isinstance(b, VBool) and isinstance(a, VInt):
